@@ -174,7 +174,7 @@ def cmd_check(args):
     seed = int(os.environ.get('VERIF_SEED', '0') or 0)
     t0 = time.time()
     scratch = mk_scratch()
-    ev_path = os.path.join(core.VERIF, 'evidence', prop + '.json')
+    ev_path = os.path.join(os.environ.get('CVS_EVIDENCE_DIR') or os.path.join(core.VERIF, 'evidence'), prop + '.json')
     os.makedirs(os.path.dirname(ev_path), exist_ok=True)
     try:
         os.unlink(ev_path)
@@ -425,6 +425,12 @@ def main(argv):
             return replay.cmd_replay(argv[1:])
     except Undecided as e:
         log('UNDECIDED: %s' % e)
+        return 2
+    except Exception:
+        # a failure of the machinery itself is never a verdict about the code
+        import traceback
+        traceback.print_exc()
+        core.kill_all()
         return 2
     log('unknown command ' + c)
     return 2
